@@ -64,3 +64,11 @@ func init() {
 			{Name: "nesting", Run: "^TestTableNesting$", Shards: [2]int{4, 16}},
 		}})
 }
+
+func init() {
+	reg(PropCfg{ID: "C16", Pkg: "c16", Level: "exploration",
+		Rule: "model-based histories: a generated program (functions over scalars, lists, objects, options; global counters/lists; returns from loops/try/match; throwing and fatally failing functions) and a history of 1-10 host invocations (function, argument values; SpawnSync or SpawnAsync+Wait+HandleTermination) on ONE VM; the reference semantics with a persistent global environment gives per call the expected outcome, output and return value; after every completed call the residue is checked (no cores, lock free, finished core: empty call stack/handler stack, at most the return value on the operand stack, memory pointer 0); after a failed call every later call must fail rather than block; non-trivial = history of >= 3 calls over >= 2 functions, or a failing call followed by another call; distinct by program + history",
+		Jobs: []Job{
+			{Name: "history", Run: "^TestHistory$", Checks: [2]int{300, 4000}, Shards: [2]int{6, 16}},
+		}})
+}
